@@ -1,5 +1,6 @@
 import Driver.Util
 import Manticore.Model.SmbCmd
+import Manticore.Model.SmbPinned
 import Manticore.Model.SmbCodecs
 import Manticore.Gen.SmbCommands
 import Manticore.Spec.Cifs
@@ -106,7 +107,7 @@ def entries : List Entry := [
         let c ← findCmd name
         let env ← parseEnv e
         let key := knownRt c
-        pure ((if consistent C c env then "ok eq same" else "*") ++ (if key.isEmpty then "" else " #" ++ key))
+        pure ((if consistentPinned C c env then "ok eq same" else "*") ++ (if key.isEmpty then "" else " #" ++ key))
       | _ => none },
   -- C05 specification: the bytes MS-CIFS prescribes for these field values
   { kind := "S", op := "smb.enc", run := fun
